@@ -1526,7 +1526,13 @@ impl KotoVm {
             }
             TemporaryTuple(RegisterSlice { start, count }) => {
                 let count = *count;
-                if (index.unsigned_abs() as usize) < count {
+                // Valid indices are 0..count from the start, and -count..=-1 from the end
+                let in_bounds = if index < 0 {
+                    (index.unsigned_abs() as usize) <= count
+                } else {
+                    (index as usize) < count
+                };
+                if in_bounds {
                     let index = signed_index_to_unsigned(index, count);
                     self.registers[start + index].clone()
                 } else {
@@ -1634,6 +1640,16 @@ impl KotoVm {
                 } else {
                     tuple.make_sub_tuple(index..tuple.len()).into()
                 }
+            }
+            TemporaryTuple(RegisterSlice { start, count }) => {
+                // e.g. `|(first..., k, v)|` applied to a map entry: the rest is a new tuple
+                let index = signed_index_to_unsigned(index, count).min(count);
+                let (from, to) = if is_slice_to {
+                    (0, index)
+                } else {
+                    (index, count)
+                };
+                Tuple(KTuple::from(&self.registers[start + from..start + to]))
             }
             Str(s) => {
                 let index = signed_index_to_unsigned(index, s.len());
